@@ -201,6 +201,10 @@ func TestC09_CrashPoints(t *testing.T) {
 			followArgs = []string{"--no-color", "-d", dbp, "--", "follow up query"}
 		}
 		fileMode := c09DrawModes(t, base)
+		symlinked := rapid.IntRange(0, 4).Draw(t, "symlinked") == 0
+		if symlinked {
+			fileMode += "+symlink"
+		}
 		oldNB := readOrNil(base.Notebook())
 		var oldEntries []database.Command
 		if oldNB != nil {
@@ -247,6 +251,9 @@ func TestC09_CrashPoints(t *testing.T) {
 				defer func() { <-sem }()
 				h := copyHomeRaw(dir, base)
 				defer h.Remove()
+				if symlinked {
+					c09Symlink(h)
+				}
 				r := runFaulted(h, dir, args, cp)
 				o := outcome{cp: cp}
 				if r.TimedOut {
